@@ -12,3 +12,4 @@ import RustCcModel.Properties.C05
 #print axioms RustCc.C05.finalize_at_most_once
 #print axioms RustCc.C05.only_finalize_again_rearms
 #print axioms RustCc.C05.finalizers_before_destructors
+#print axioms RustCc.C05.never_finalized_without_feature
